@@ -94,7 +94,7 @@ ImplShapeGap(used) ==                                                           
   IN CHOOSE n \in free : \A m \in free : n <= m
 ImplCtn(used) == IF Digits(used) = {} THEN RAISES ELSE MaxOr(Digits(used), 0) + 1           \* max(ids) + 1
 
-\* op = "alloc" | "allocGap" (shape only)
+\* op = "alloc" | "allocGap" (shape only) | "allocIn" (shape only: added inside a group of the slide; same allocator, no turbo cache)
 ImplNew(kind, op, used, turbo) ==
   CASE kind = "rid" -> ImplRid(used) [] kind = "partname" -> ImplPartname(used) [] kind = "image" -> ImplImage(used)
     [] kind = "media" -> ImplMedia(used) [] kind = "slideid" -> ImplSlideId(used) [] kind = "ctn" -> ImplCtn(used)
